@@ -15,7 +15,7 @@ targets = ['Common/Hex.vo']
 bins = []
 for pid in claimed:
     p = importlib.import_module('vlib.' + pid.lower()).PROP
-    targets += ['%s/Properties.vo' % pid, '%s/%s.vo' % (pid, p.exec_mod)]
+    targets += ['%s/Properties.vo' % pid, '%s/%s.vo' % (pid, p.exec_mod)] + list(getattr(p, 'extra_coq_targets', []))
     bins.append((p.pkg, p.binname))
     for extra in getattr(p, 'extra_bins', []):
         bins.append(extra)
